@@ -218,18 +218,18 @@ Inductive op :=
 | OGC
 | OReopen.
 
-Definition step (g : gcfg) (d : db) (o : op) : db * option err :=
+Definition step (fx : bool) (g : gcfg) (d : db) (o : op) : db * option err :=
   match o with
   | OWrite start ws => write_db d start ws
-  | ODelete chs a b => delete_time_range d chs (TR a b)
+  | ODelete chs a b => delete_time_range fx d chs (TR a b)
   | OGC => (gc_db g d, None)
   | OReopen => (reopen_db d, None)
   end.
 
-Fixpoint run (g : gcfg) (d : db) (ops : list op) : db :=
+Fixpoint run (fx : bool) (g : gcfg) (d : db) (ops : list op) : db :=
   match ops with
   | [] => d
-  | o :: r => run g (fst (step g d o)) r
+  | o :: r => run fx g (fst (step fx g d o)) r
   end.
 
 (* channel declaration: key, index key, is-index, variable, density *)
